@@ -21,6 +21,9 @@ func init() {
 			{ID: "C09.R1", Text: "identity sequence built ascending; every chunk is param[start:end] with start(i+1)=end(i), start(0)=0 — contiguous ascending sweep, no copy/reorder", Run: c09r1},
 			{ID: "C09.R2", Text: "member's set = ChunkSlice(all, info.TotalMembers)[info.MemberNumber-1], info from one GetInfo() call, returned as is", Run: c09r2},
 			{ID: "C09.R4", Text: "the ownership test and the close loop agree with the assigned chunk: In ⇔ Start ≤ vbID ≤ End (a one-vBucket range is not empty), range = [first, last] of the chunk, streams closed for Start..End inclusive (same rules as C04.R2, C13.R8)", Run: func(c *Ctx, id string) { c04r2(c, id); closeAllRange(c, id) }},
+			{ID: "C09.R5", Text: "the streams opened are those of the assigned chunk: one opener per element of the list VBucketDiscovery.Get returned (same rule as C15.R3)", Run: c15r3},
+			{ID: "C09.R6", Text: "a change of the group reaches the partition: the client's bus listener calls Stream.Rebalance on every path, also while the stream is closed or reopening (same rule as C11.R7)", Run: c11r7},
+			{ID: "C09.R7", Text: "the partition is computed from the membership in effect: the bus-fed membership implementations record every announcement unconditionally and GetInfo only reads (same rule as C11.R12)", Run: latestInfo},
 			{ID: "C09.R3", Text: "purity: no globals, goroutines, map ranges; ChunkSlice calls only builtins; Get calls only GetInfo, ChunkSlice and the logger", Run: c09r3},
 		},
 	})
